@@ -585,14 +585,14 @@ def run(ctx: Ctx) -> int:
     tlc.model_check(ctx, "Fpef", f"Fpef_c04_mc_{tier}", vacuity_ignore=("Emit", "Defect"))
     gen = generated_docs(ctx, f"Fpef_gen_{tier}")
     rng = random.Random(ctx.seed * 1000003 + 4)
-    budget = 2600 if tier == "quick" else 30000
+    budget = 2600 if tier == "quick" else 20000
     docs = [g["doc"] for g in gen]
     if len(docs) > budget:     # the model check covers all; replay a seeded sample (all one-module documents kept)
         single = [d for d in docs if len(d["mods"]) == 1]
         rest = [d for d in docs if len(d["mods"]) != 1]
         docs = single + rng.sample(rest, budget - len(single))
     cases = [{"doc": d, "embs": embeddings_for(i, d, tier)} for i, d in enumerate(docs)]
-    nrand = 250 if tier == "quick" else 4000
+    nrand = 250 if tier == "quick" else 3000
     rdocs = [random_doc(rng) for _ in range(nrand)]
     cases += [{"doc": d, "embs": list(ALL), "text": i % 4 == 0} for i, d in enumerate(rdocs)]
     decide(ctx, cases)
